@@ -22,6 +22,14 @@ Definition dispatch (op : bytes) (args : list sx) : sx :=
       end
   end.
 
+(* an answer that contains (undecided) anywhere (e.g. inside the per-goroutine results of a
+   concurrency case) is outside the decided class of the model *)
+Fixpoint has_undecided (fuel : nat) (m : sx) : bool :=
+  match fuel with
+  | O => false
+  | S f => is_undecided m || match m with SL l => existsb (has_undecided f) l | _ => false end
+  end.
+
 (* verdict: (ok) or (diff expected) *)
 Definition judge (op : bytes) (args : list sx) (impl : sx) : sx :=
   let m := dispatch op args in
@@ -29,7 +37,8 @@ Definition judge (op : bytes) (args : list sx) (impl : sx) : sx :=
     if bytes_eqb op (s2b "mi_dec") then judge_mi_dec args impl
     else if bytes_eqb op (s2b "fault") then judge_fault args impl
     else if bytes_eqb op (s2b "mem") then judge_mem args impl
+    else if bytes_eqb op (s2b "sxg_verdict_roundtrip") then judge_verdict_roundtrip args impl
     else sx_eqb m impl in
   if same then SL [sym "ok"]
-  else if is_undecided m then SL [sym "skip"]
+  else if has_undecided 6 m then SL [sym "skip"]
   else SL [sym "diff"; m].
